@@ -26,6 +26,9 @@ pub struct Cluster {
     pub env: BTreeMap<String, String>,
     /// extra environment of single nodes (index -> vars), applied after `env`
     pub node_env: BTreeMap<usize, BTreeMap<String, String>>,
+    /// data ids of the sentinel writes issued so far (each nudge is a publish to a fresh key, so that every
+    /// log entry of the tail is observable afterwards)
+    pub nudges: Vec<String>,
     pub client: reqwest::blocking::Client,
 }
 
@@ -109,6 +112,7 @@ impl Cluster {
             work: root,
             env,
             node_env: BTreeMap::new(),
+            nudges: vec![],
             client,
         })
     }
@@ -285,13 +289,30 @@ impl Cluster {
         self.wait_quiescent_nudged_opt(secs, via, false)
     }
 
+    /// one sentinel write through node `via` to a fresh key
+    pub fn nudge(&mut self, via: usize) {
+        let id = format!("zz-nudge-{}", self.nudges.len() + 1);
+        let _ = self.publish(via, "", "DEFAULT_GROUP", &id, &format!("nudge {}", self.nudges.len() + 1));
+        self.nudges.push(id);
+    }
+
+    /// what a node serves for every sentinel key written so far
+    pub fn nudge_view(&self, node: usize) -> Result<BTreeMap<String, Option<String>>, String> {
+        let mut m = BTreeMap::new();
+        for id in &self.nudges {
+            m.insert(id.clone(), self.get(node, "", "DEFAULT_GROUP", id)?);
+        }
+        Ok(m)
+    }
+
     pub fn wait_quiescent_nudged_opt(&mut self, secs: u64, via: usize, allow_nonvoter: bool) -> Result<u64, String> {
         let t0 = Instant::now();
         let mut n = 0u32;
         let mut last = String::new();
         while t0.elapsed() < Duration::from_secs(secs) {
             n += 1;
-            let _ = self.publish(via, "", "DEFAULT_GROUP", "zz-nudge", &format!("n{}", n));
+            let _ = n;
+            self.nudge(via);
             match self.wait_quiescent_opt(2, allow_nonvoter) {
                 Ok(v) => return Ok(v),
                 Err(e) => last = e,
@@ -318,7 +339,8 @@ impl Cluster {
             let mut helped = false;
             while t0.elapsed() < Duration::from_secs(60) {
                 n += 1;
-                let _ = self.publish(0, "", "DEFAULT_GROUP", "zz-nudge", &format!("f{}", n));
+                let _ = n;
+                self.nudge(0);
                 let member = self
                     .metrics(0)
                     .and_then(|m| m["membership_config"]["members"].as_array().map(|a| a.iter().any(|x| x.as_u64() == Some(id))))
